@@ -54,8 +54,10 @@ func (f *StringRepeat) Call(s *slip.Scope, args slip.List, depth int) slip.Objec
 	} else {
 		slip.TypePanic(s, depth, "string", args[0], "string")
 	}
-	if num, ok := args[1].(slip.Fixnum); ok {
+	if num, ok := args[1].(slip.Fixnum); ok && 0 <= num && (len(str) == 0 || int(num) <= slip.ArrayMaxDimension/len(str)) {
 		count = int(num)
+	} else if ok {
+		slip.TypePanic(s, depth, "count", args[1], "non-negative fixnum that keeps the result within array-dimension-limit")
 	} else {
 		slip.TypePanic(s, depth, "count", args[1], "fixnum")
 	}
